@@ -416,6 +416,72 @@ def sweep_c03(tier, seed):
             "samples": [{"seed": seed * 1000003}], "kind": "bounded-native"}
 
 
+def thick_vector_case(seed):
+    """thick map with a vector layer next to a scalar layer, each with its own reduction: every row (u, v, |uv|) of the
+    vector layer and the scalar layer against the column oracle, incl. the depth-step factor and the units"""
+    import warnings
+
+    import numba
+    import numpy as np
+    import osyris
+    from osyris import Array, Vector, units
+    from osyris.core import Layer
+
+    rng = np.random.default_rng(seed)
+    numba.set_num_threads(1)
+    C, S = amr_mesh(rng, 3, 2, n0=2)
+    pos = Vector(*[Array(C[:, d].copy(), unit="cm") for d in range(3)])
+    aux = {"position": pos, "dx": Array(S.copy(), unit="cm")}
+    vec = rng.uniform(-1, 1, (len(S), 3)) + 2.0
+    sca = rng.uniform(1, 2, len(S))
+    ops = [("sum", "mean"), ("mean", "sum"), ("nansum", "max"), ("max", "nansum")][seed % 4]
+    order = seed % 2  # vector layer first or second
+    lv = Layer(Vector(*[Array(vec[:, d].copy(), unit="cm/s") for d in range(3)], name="vel"), aux=aux, mode="vec", operation=ops[0])
+    ls = Layer(Array(sca.copy(), unit="g", name="rho"), aux=aux, operation=ops[1])
+    layers = (lv, ls) if order == 0 else (ls, lv)
+    direction = ["z", "x", "y"][seed % 3]
+    u, v, n = documented_basis(direction)
+    o = np.array([0.47, 0.53, 0.41])
+    dz, nz, nx = 0.37, 5, 6
+    p = osyris.map(*layers, direction=direction, dx=0.8 * units("cm"), dz=dz * units("cm"), origin=Vector(*[Array(float(x), unit="cm") for x in o]),
+                   resolution={"x": nx, "y": nx, "z": nz}, plot=False)
+    numba.set_num_threads(numba.config.NUMBA_NUM_THREADS)
+    zc = -0.5 * dz + (np.arange(nz) + 0.5) * dz / nz
+    desc = {"seed": seed, "operations": {"vector": ops[0], "scalar": ops[1]}, "vector_layer_first": order == 0, "direction": direction}
+    out = {("vel" if "vel" == lay["name"] else "rho"): lay for lay in p.layers}
+    for j, y in enumerate(p.y):
+        for i, x in enumerate(p.x):
+            cells = []
+            for z in zc:
+                strict, near = locate(C, S, o + x * u + y * v + z * n, 1e-9)
+                if len(strict) != len(near):
+                    cells = None
+                    break
+                cells.append(strict[0] if len(strict) else -1)
+            if cells is None:
+                continue
+            cols = {"rho": [np.array([sca[c] if c >= 0 else np.nan for c in cells])],
+                    "vel": [np.array([(vec[c] @ w) if c >= 0 else np.nan for c in cells]) for w in (u, v)]}
+            cols["vel"].append(np.hypot(cols["vel"][0], cols["vel"][1]))
+            for name, op in (("vel", ops[0]), ("rho", ops[1])):
+                data = out[name]["data"]
+                for r, col in enumerate(cols[name]):
+                    with warnings.catch_warnings():
+                        warnings.simplefilter("ignore")
+                        exp = getattr(np, op)(col) * (dz / nz if op in ("sum", "nansum") else 1.0)
+                    got = np.ma.getdata(data)[j, i, r] if name == "vel" else np.ma.getdata(data)[j, i]
+                    if np.isnan(exp):
+                        continue  # masking of partly missing columns is the scalar sweep's business
+                    if not math.isclose(float(got), float(exp), rel_tol=1e-9):
+                        return {"what": "layer %s (operation %s) row %d at pixel (j=%d,i=%d): map shows %r, column oracle %r"
+                                        % (name, op, r, j, i, float(got), float(exp)), "input": desc}
+    for name, op, base in (("vel", ops[0], units("cm/s")), ("rho", ops[1], units("g"))):
+        want = base * units("cm") if op in ("sum", "nansum") else base
+        if not (out[name]["unit"] == want):
+            return {"what": "layer %s (operation %s) has unit %s, expected %s" % (name, op, out[name]["unit"], want), "input": desc}
+    return None
+
+
 def sweep_c11(tier, seed):
     n = 120 if tier == "quick" else 2000
     viol, cases = [], 0
@@ -439,6 +505,17 @@ def sweep_c11(tier, seed):
         cases += 1
         if attempt("C11.native.thick_map.thin_slab", seed * 104729 + s,
                    force={"ndim": 3, "dzfrac": [0.02, 0.05, 0.1][s % 3], "levels": 1, "op": ["sum", "mean", "nanmax"][s % 3]}):
+            break
+    for s in range(8 if tier == "quick" else 48):
+        cases += 1
+        try:
+            r = thick_vector_case(seed * 11 + s)
+        except Exception as e:
+            import traceback
+
+            r = {"what": "exception %r (%s)" % (e, traceback.format_exc(limit=2).splitlines()[-2].strip()), "input": {"seed": seed * 11 + s}}
+        if r:
+            viol.append({"name": "C11.native.thick_map.vector_layer", "input": r["input"], "observed": r["what"]})
             break
     # 2-D datasets have no depth: the normal is the zero vector and every depth sample is the same point
     for s in range(max(6, n // 10)):
